@@ -64,15 +64,35 @@ that one defect gives one id wherever it is nested.
 
 Str specs with a regular expression take part in the apply/default/frozen
 checks only (the statement excludes them from compatibility).  Specs with a
-user transform (always a total, idempotent converter here, the identity on
-the values of the spec's own type) take part in the apply/default checks, as
-*children* of extensions (the values they hold as they are must be accepted by
-the base) and as *bases* of extensions of their own class only; they are left
-out of the soundness check of is_compatible: what a user function accepts is
-not something is_compatible could know.
+user transform take part in the apply/default checks and as *children* of
+extensions (the values they hold as they are must be accepted by the base);
+they are left out of the soundness check of is_compatible: what a user
+function accepts is not something is_compatible could know.  The user
+transforms come in the two kinds the library documents ("a type converter or a
+custom validator which may raise errors"):
+
+  * converters (tr_list, tr_tuple, tr_a, tr_id): total and idempotent, the
+    identity on the values of the spec's own type.  As *bases* they are
+    extended by specs of their own class only (a converter to another type
+    below a spec of that other type is outside the algebra);
+  * a validator (va_mark): the identity on every value but the *marked* ones
+    (a negative number at any depth, the function fu, instances of Q / g2),
+    which it refuses.  A validator is meaningful for a spec of any class, so a
+    base with a validator is extended by children of every class for which the
+    extension succeeds: the same class, a base `Any(transform=...)` (on its
+    own and as element / field of a container), a base Union with a candidate
+    that has the validator.  "Every value the extended spec accepts is
+    accepted by the base" then means: the extension refuses the marked values
+    too.  The ids of these cases end in the innermost spec of the base whose
+    validator says no (see `validator_tag`):
+      */validator-of-<Class>, */validator-of-union-candidate,
+      */validator-of-base+child-transform (the child has a transform of its own),
+      */validator-of-base+frozen-child (the child is frozen to a marked value),
+      *default-accepted/validator-of-base (the child's default is marked).
 """
 import copy
 import re
+import zlib
 
 import pyglove as pg
 from pyvc.bounded import Recorder, rng
@@ -116,7 +136,22 @@ _PARTS = {
     'tr_tuple': ((), 'def tr_tuple(v): return tuple(v) if isinstance(v, list) else v\n'),
     'tr_a': (('A',), 'def tr_a(v): return A(x=v) if type(v) is int else v\n'),
     'tr_id': ((), 'def tr_id(v): return v\n'),
+    # a user transform used as *validator* (the documented second use of
+    # `transform`): the identity on every value but the marked ones, which it
+    # refuses: values holding a negative number (at any depth of lists, tuples,
+    # dicts and fields of symbolic objects), the function fu, instances of Q / g2.
+    'va_mark': ((), 'def va_mark(v):\n'
+                    '  def m(x):\n'
+                    '    if isinstance(x, (list, tuple, dict, pg.Object)):\n'
+                    "      return type(x).__name__ == 'g2' or any(m(e) for e in (\n"
+                    '          x.sym_values() if isinstance(x, pg.Symbolic) else\n'
+                    '          x.values() if isinstance(x, dict) else x))\n'
+                    '    if type(x) in (int, float): return x < 0\n'
+                    "    return getattr(x, '__name__', '') == 'fu' or type(x).__name__ == 'Q'\n"
+                    "  if m(v): raise ValueError('marked value: %r' % (v,))\n"
+                    '  return v\n'),
 }
+VALIDATORS = ('va_mark',)
 _NAME_RE = re.compile(r'\b(' + '|'.join(sorted(_PARTS, key=len, reverse=True)) + r')\b')
 
 NS = {}
@@ -316,6 +351,27 @@ def has_regex(a):
 
 def has_transform(a):
   return bool(a['transform']) or any(has_transform(c) for c in children(a))
+
+
+def has_validator(a):
+  """A user transform that refuses values (see va_mark) somewhere inside."""
+  return a['transform'] in VALIDATORS or any(has_validator(c) for c in children(a))
+
+
+def only_validators(a):
+  """Every user transform inside is a validator: the identity or a refusal,
+  meaningful below and above a spec of any class (a converter is not)."""
+  return ((not a['transform'] or a['transform'] in VALIDATORS) and
+          all(only_validators(c) for c in children(a)))
+
+
+def refuses(tr, v):
+  """The validator named tr refuses the value v."""
+  try:
+    NS[tr](v)
+    return False
+  except Exception:  # pylint: disable=broad-except
+    return True
 
 
 def children(a):
@@ -830,8 +886,22 @@ def _vals(a, depth):
     lim = 14 if depth == 0 else 5
     for c in a['cands']:
       out += vals(c, depth + 1)[:lim]
+  if a['transform'] in VALIDATORS:
+    # values of the spec's kind that the validator refuses.
+    out += MARKED.get(k, [])
   out += WRONG if depth == 0 else WRONG[:4]
   return out
+
+
+MARKED = {
+    'Any': ['-1', '-0.5', '[1, -1]', "{'a': -1}", 'Q()', 'fu', 'C(r=-1)'],
+    'List': ['[-1]', '[1, -1]'],
+    'Tuple': ['(-1,)', "(-1, 'a')", '(1, -1)'],
+    'Dict': ["{'a': -1}", "{'x': -1}", "{'k1': -1}"],
+    'Object': ['C(r=-1)', 'C(r=[1, -1])', 'Q()'],
+    'Callable': ['fu', 'g2(a=1, b=0.5)'],
+    'Functor': ['g2(a=1, b=0.5)'],
+}
 
 
 def _list(xs):
@@ -1131,6 +1201,53 @@ def transforms(tier):
   return out
 
 
+def validators(tier):
+  """Specs whose user transform is a *validator* (va_mark: the identity or a
+  refusal): every spec class that takes a transform, with noneable / default /
+  frozen variants; the validator on an element / field / union candidate
+  (`Any(transform=...)` below every container: the way to constrain a value of
+  any type); and transform-free specs whose default / frozen value is one the
+  validator refuses (children of such bases)."""
+  thorough = tier == 'thorough'
+  SK = ('str', None)
+  va = 'va_mark'
+  out = []
+  tops = [Any(), List(Int()), Tuple(Int()), Tuple([Int(), Str()]), Dict(),
+          Dict([('x', Int())]), Object('C'), Callable(), Callable(functor=True)]
+  if thorough:
+    tops += [List(Int(0, 5), 1, 3), Tuple(Int(), 1, 2), Object('A'), Object('P'),
+             Dict([(SK, Int())]), Callable([Int()]),
+             Dict([('x', Int(default='1')), ('y', Str(noneable=True))])]
+  for i, a in enumerate(tops):
+    ms = modifiers(mod(a, transform=va), full=thorough)
+    out += ms if thorough or i in (0, 1, 5) else ms[:1]
+  av = Any(transform=va)
+  lv = List(Int(), transform=va)
+  dv = Dict([('x', Int())], transform=va)
+  out += [
+      List(av), Tuple(av), Tuple([av, Str()]), Dict([('x', av)]), Dict([(SK, av)]),
+      Dict([('x', Any(transform=va, default='1'))]), List(lv), Dict([('d', lv)]),
+      Union([lv, Str()]), Union([dv, Int()]), Union([Tuple(Int(), transform=va), List(Int())]),
+      Union([Object('C', transform=va), Int()]), Union([Callable(transform=va), Int()]),
+  ]
+  if thorough:
+    out += [
+        List(av, 1, 2), Tuple([Int(), av]), Dict([('x', av), ('y', Str())]), List(List(av)),
+        Dict([('d', List(av))]), Dict([('d', dv)]), Tuple([lv, Int()]), Union([Str(), lv]),
+        Union([List(av), Str()]), List(Union([lv, Int()])),
+    ]
+  # transform-free children holding a marked value as default / frozen value.
+  # (`marked`: in the quick tier mostly extended on bases that have a validator.)
+  held = [Int(default='-1'), Int(frozen='-1'), Float(default='-0.5'), Int(None, 0, default='-1'),
+          List(Int(), default='[-1]'), List(Int(), frozen='[1, -1]'), Tuple(Int(), default='(-1,)'),
+          Dict([('x', Int(default='-1'))]), Dict([('x', Int())], default="{'x': -1}"),
+          Dict(default="{'a': -1}"), Object('C', default='C(r=-1)'), Callable(default='fu'),
+          Enum(['-1', '1']), Enum(['-1', '1'], default='-1'),
+          Union([Int(), Str()], default='-1'), Any(default='-1')]
+  out += [mod(a, marked=True) for a in held]
+  return out
+
+
 def rand_spec(r, depth):
   """A seeded random description (bounds and sizes from small sets)."""
   leaf = depth <= 0 or r.random() < 0.3
@@ -1219,7 +1336,8 @@ class Universe:
 
   def __init__(self, tier, seed, want=lambda a: True, n_random=None, rec=None):
     r = rng(seed, 'c04-universe')
-    descs = atoms(tier) + containers(tier) + nested(tier) + transforms(tier)
+    descs = (atoms(tier) + containers(tier) + nested(tier) + transforms(tier) +
+             validators(tier))
     if n_random is None:
       n_random = 70 if tier == 'quick' else 400
     self.n_random = n_random
@@ -1873,15 +1991,20 @@ def narrow_cid(head, fam, law, ext, b, c, v):
   """Case id of the value v, accepted (as it is) by the extension `ext` of c
   and rejected by the base b: head + family of the child + law + input class.
 
-  Two input classes are named for what they are, whatever the child:
+  Three input classes are named for what they are, whatever the child:
     * a symbolic container (pg.List / pg.Dict) that `ext` accepts although it
       rejects the same plain list / dict;
-    * a value that the base rejects although its transform-free twin accepts it
-      (every user transform of this file is the identity on such a value)."""
+    * a marked value that a validator of the base refuses (`validator_tag`):
+      the extension has to refuse it too;
+    * any other value that the base rejects although its transform-free twin
+      accepts it (every converter of this file is the identity on such a value)."""
   try:
     if has_symbolic(v) and not acc_live_v(ext, plain(copy.deepcopy(v))):
       return (f'{head}{law}/symbolic-value' +
               ('-to-transform-spec' if has_transform(c) or has_transform(b) else ''))
+    vt = validator_tag(c, b, v) if has_validator(b) else None
+    if vt:
+      return f'{head}{"applied-child." if fam.startswith("applied") else ""}{law}/{vt}'
     if has_transform(b) and acc_live_v(ev(to_expr(strip_transform(b))), copy.deepcopy(v)):
       return f'{head}{law}/transform-base-rejects-own-value'
   except Exception:  # pylint: disable=broad-except
@@ -1890,6 +2013,85 @@ def narrow_cid(head, fam, law, ext, b, c, v):
   if 'transform-child' in fam:
     tag = coarse(tag, b, c, v)
   return f'{head}{fam}{law}/{tag}'
+
+
+def validator_tag(c, b, v, via_union=False):
+  """Input class of a value v of the extension of c that a *validator* of the
+  base b refuses, or None if no validator of b refuses (the part of) v.
+
+    validator-of-<Class>           the innermost spec of the base whose validator
+                                   says no (the child has no transform of its own
+                                   there, so it has to take over the validator)
+    validator-of-union-candidate   ... a candidate of a Union base, the counterpart
+                                   of the child
+    validator-of-base+child-transform   ... and the child has its own transform there
+    validator-of-base+frozen-child      ... and the child is frozen there
+
+  c: the description of the child at the same position (None: unknown)."""
+  if v is None or is_missing(v) or b['frozen'] is not None:
+    return None
+  tr, k = b['transform'], b['k']
+  if tr in VALIDATORS and refuses(tr, v):
+    if c is not None and c['frozen'] is not None:
+      return 'validator-of-base+frozen-child'
+    if c is not None and c['transform']:
+      return 'validator-of-base+child-transform'
+    if via_union:
+      return 'validator-of-union-candidate'
+    return 'validator-of-' + ('Callable' if k == 'Functor' else k)
+  if c is not None and c['frozen'] is not None:
+    c = None                             # (a frozen child: its parts are not looked at.)
+  if k == 'Union':
+    for bb in b['cands']:
+      ts = pytypes(bb)
+      if ts and not isinstance(v, ts):
+        continue
+      ccs = [None]
+      if c is not None:
+        flat = list(flat_cands(c)) if c['k'] == 'Union' else [c]
+        ccs = [x for x in flat if x['k'] == bb['k']] or [None]
+      t = validator_tag(ccs[0], bb, v, via_union=c is None or c['k'] != 'Union')
+      if t:
+        return t
+    return None
+  if c is not None and c['k'] == 'Union':
+    c = next((x for x in flat_cands(c) if x['k'] == k), None)
+  if c is not None and c['k'] != k:
+    c = None
+  pairs = []
+  if k == 'List' and isinstance(v, list):
+    pairs = [(c['elem'] if c else None, b['elem'], x) for x in _seq(v)]
+  elif k == 'Tuple' and isinstance(v, tuple):
+    be = tuple_elems(b) if tuple_fixed(b) else [b['elems']] * len(v)
+    ce = [None] * len(v)
+    if c:
+      ce = tuple_elems(c) if tuple_fixed(c) else [c['elems']] * len(v)
+    if len(be) == len(v):
+      ce = ce if len(ce) == len(v) else [None] * len(v)
+      pairs = list(zip(ce, be, v))
+  elif k == 'Dict' and isinstance(v, dict) and b['fields'] is not None:
+    for key, x in _items(v):
+      fb = field_for_key(b, key)
+      if fb is not None:
+        fc = field_for_key(c, key) if c and c['fields'] is not None else None
+        pairs.append((fc[1] if fc else None, fb[1], x))
+  for cc, bb, x in pairs:
+    t = validator_tag(cc, bb, x)
+    if t:
+      return t
+  return None
+
+
+def default_tag(c, b, d):
+  """Last part of the ids of `default-accepted` after an extension: the class of
+  the child; `validator-of-base` when the default is a value that a validator
+  of the base refuses (the extension inherits the validator)."""
+  try:
+    if (has_validator(b) or has_validator(c)) and any(refuses(tr, d) for tr in VALIDATORS):
+      return 'validator-of-base' if has_validator(b) else 'validator-of-child'
+  except Exception:  # pylint: disable=broad-except
+    pass
+  return c['k']
 
 
 def tkind(c):
@@ -1947,9 +2149,13 @@ def _drv_extend(tier, seed, part):
   n_pairs = n_ok = n_applied = 0
   paths = [dict_key_paths(a) for a in U.descs]
   bases = [ev(e) for e in U.exprs]
+  # per spec: a user transform / a validator inside; validators only.
+  ht = [has_transform(a) for a in U.descs]
+  hv = [has_validator(a) for a in U.descs]
+  vb = [hv[q] and only_validators(a) for q, a in enumerate(U.descs)]
   for i in range(n):
     c, ec = U.descs[i], U.exprs[i]
-    tc = has_transform(c)
+    tc = ht[i]
     if tc != part:
       continue
     cpaths = paths[i]
@@ -1964,20 +2170,40 @@ def _drv_extend(tier, seed, part):
         # related pairs; half of the (many) container / union pairs; 4% of the rest.
         rel = _related(c, b)
         p_keep = (0.5 if c['k'] == b['k'] and c['k'] in _BIG and not tc else 1.0) if rel else 0.04
-        if has_transform(b):
+        if not rel and (vb[j] or hv[i] or c.get('marked')):
+          continue                   # (the specs of the validator cases: related pairs only.)
+        if vb[j]:
+          # bases with a validator: a sample of the related children (fewer for
+          # the variants of the base with a default / frozen value and for the
+          # children that have a transform themselves).
+          if c.get('marked'):
+            p_keep = 1.0             # (children that hold a marked value: all.)
+          elif b['k'] == 'Any':      # (related to every child: a quarter of them.)
+            p_keep = 0.1 if has_value(b) or hv[i] else 0.25
+          else:
+            p_keep = 0.3 if has_value(b) or tc else 0.6
+        elif hv[i]:
+          p_keep = 1.0 if b.get('marked') else p_keep * 0.3
+        elif c.get('marked'):
+          p_keep *= 0.2
+        elif ht[j]:
           p_keep *= 0.3 if tc else 0.2    # (bases with a user transform: a sample.)
       else:
         p_keep = 1.0 if _related(c, b) else 0.05
       if p_keep < 1.0 and r.random() > p_keep:
         continue
-      if has_transform(b) and b['k'] != c['k']:
-        continue     # a user converter of another kind of spec: outside the algebra.
+      if ht[j] and b['k'] != c['k'] and not (vb[j] or only_validators(b)):
+        continue     # a user converter of another kind of spec: outside the algebra
+                     # (a validator is meaningful for a spec of any kind).
       n_pairs += 1
       # the child as constructed; a child with a user transform also after it
       # was applied to values; a sample of the other children likewise.
       variants = [False]
-      if held and ((tc and not has_value(c)) or
-                   (not tc and r2.random() < (0.05 if tier == 'quick' else 0.25))):
+      sampled = not tc and r2.random() < (0.05 if tier == 'quick' else 0.25)
+      if not tc and vb[j]:
+        # on a base with a validator: a selection that does not depend on the seed.
+        sampled = bool(c.get('marked')) or zlib.crc32((ec + eb).encode()) % 4 == 0
+      if held and ((tc and not has_value(c)) or sampled):
         variants.append(True)
       # NOTE: the base is one object per b, reused over all children (a fresh
       # one per pair doubles the cost); `extend` has no business changing its
@@ -2011,7 +2237,7 @@ def _drv_extend(tier, seed, part):
                '# see message\nraise AssertionError("base changed by extend")')
   rec.scope = (f'{n_pairs} ordered pairs (c, b): c one of the {n_children} specs '
                f'{"with" if part else "without"} a user transform, b one of {n} regex-free specs '
-               f'({"related pairs (half of the transform-free List/Tuple/Dict/Union ones, 20-30% of those with a base that has a user transform) + 4% of the rest" if tier == "quick" else "all related pairs + 5% of the rest"}), '
+               f'({"related pairs (half of the transform-free List/Tuple/Dict/Union ones, 20-30% of those with a base that has a converter, 25% of the children of every class on a base Any with a validator, 60% on the other bases with a validator) + 4% of the rest" if tier == "quick" else "all related pairs + 5% of the rest"}), '
                f'{n_ok} successful extensions ({n_applied} of a child that was applied to values '
                f'first: {"every child that has no default / frozen value" if part else "a sample"}), each on the '
                f'values of both pools + core that b '
@@ -2080,7 +2306,7 @@ def _check_extension(rec, U, tier, i, j, ext, base, fam, mk, dicty):
       ext.apply(dd, allow_partial=True)
       rec.case(f'extend.{fam}default-accepted/{c["k"]}', key, True)
     except Exception as ex:  # pylint: disable=broad-except
-      rec.case(f'extend.{fam}default-accepted/{c["k"]}', key, False,
+      rec.case(f'extend.{fam}default-accepted/{default_tag(c, b, d)}', key, False,
                f'{mk1} -> {R(ext)} rejects its own default {R(d)}: '
                f'{type(ex).__name__}: {ex}',
                fit(wpre() + 'import copy\nassert acc(ext, copy.deepcopy(ext.default), '
@@ -2152,6 +2378,17 @@ def field_specs(tier, seed):
     out.append(mod(a, transform=tr))
     if d is not None:
       out.append(mod(a, transform=tr, default=d))
+  # fields with a validator (on the field, an element, a union candidate), and
+  # transform-free fields whose default / frozen value the validator refuses.
+  va = 'va_mark'
+  av = Any(transform=va)
+  out += [av, List(Int(), transform=va), List(av), Union([List(Int(), transform=va), Str()]),
+          Int(default='-1'), Int(frozen='-1')]
+  if tier == 'thorough':
+    out += [Dict([('p', Int())], transform=va), Dict([('p', av)]), Dict([('p', Int(default='-1'))]),
+            Any(transform=va, default='1'), Tuple(Int(), transform=va), Tuple([av, Int()]),
+            Object('C', transform=va), Callable(transform=va), Object('C'),
+            List(Int(), default='[-1]')]
   r = rng(seed, 'c04-fields')
   for _ in range(n_random(tier, 10, 60)):
     a = rand_spec(r, r.choice([0, 1, 2]))
@@ -2229,7 +2466,7 @@ def drv_schema(tier, seed):
       eb = to_expr(b)
       if tier == 'quick' and not _related(c, b):
         continue
-      if has_transform(b) and b['k'] != c['k']:
+      if has_transform(b) and b['k'] != c['k'] and not only_validators(b):
         continue     # a user converter of another kind of spec: outside the algebra.
       fam = family(c, False)
       layout = (ci + bi) % 3
@@ -2274,7 +2511,8 @@ def drv_schema(tier, seed):
                    fit(wpre + "assert bs['x'].value.is_compatible(cs['x'].value)\n", key))
         dok = default_ok(fx)
         if dok is not None:
-          rec.case(f'schema.extend.{fam}default-accepted/{c["k"]}', key, dok[0],
+          rec.case(f'schema.extend.{fam}default-accepted/'
+                   f'{c["k"] if dok[0] else default_tag(c, b, fx.default)}', key, dok[0],
                    f'field x of {mk_c}.extend({mk_b}): {dok[1]}',
                    fit(wpre + "import copy\nf = cs['x'].value\n"
                        'assert acc(f, copy.deepcopy(f.default), allow_partial=True)\n', key))
@@ -2398,7 +2636,8 @@ def _check_classes(rec, c, b, ec, eb, layout, xs):
       ok, msg = True, ''
     except Exception as ex:  # pylint: disable=broad-except
       ok, msg = False, f'{type(ex).__name__}: {ex}'
-    rec.case(f'schema.subclass.{fam}default-accepted/{c["k"]}', key, ok,
+    rec.case(f'schema.subclass.{fam}default-accepted/{c["k"] if ok else default_tag(c, b, d)}',
+             key, ok,
              f'Child.x is {fx!r}; it rejects its own default: {msg}',
              fit(pre(ec, eb) + src + "import copy\nf = Child.__schema__['x'].value\n"
                  'assert acc(f, copy.deepcopy(f.default), allow_partial=True)\n', key))
